@@ -108,8 +108,8 @@ ASSUMPTIONS = [
     'CLEAN: code points < 32 are removed, DEL (127) may be kept or removed, everything else is kept',
     'CODE(CHAR(n)) = n is demanded for 1..255; above 255 an error result is accepted (Excel rejects such n), '
     'a different number is not; n = 0 and surrogates are not demanded',
-    'CONCATENATE / TEXTJOIN(.., FALSE, ..) render a blank item as empty text; items are text or blank only '
-    '(rendering of numbers/logicals and "" items under ignore_empty are not demanded)',
+    'CONCATENATE / TEXTJOIN(.., FALSE, ..) render a blank item as empty text; items are text, blanks and whole numbers '
+    '(joined as their digits); rendering of other numbers, logicals and "" items under ignore_empty are not demanded',
     'blank items reach the functions as None variables, None members of host lists and single empty '
     'positions of literal arrays; runs of empty positions ({"a",,,"b"}), leading/trailing empty positions '
     'and empty function arguments are argument-list syntax and are not used',
@@ -603,6 +603,47 @@ class CaseTrimClean(Sharded):
         return None
 
 
+class CaseSpecial(Sub):
+    name = 'c15.case_special'
+    rule = ('every letter below U+3000 whose upper-, lower- or title-case form is longer than one character or is not a fixed '
+            'point of the same mapping (dotted capital I, the ligatures, sharp s ...; selected with the interpreter\'s own tables, '
+            'which are not used as an oracle), embedded as "a"+c+"b", c+"a", "x "+c and alone: UPPER, LOWER and PROPER are '
+            'idempotent - f(f(s)) = f(s) - and the result is text; non-trivial = all')
+    min_cases = 20
+    min_nontrivial = 20
+
+    @staticmethod
+    def letters():
+        out = []
+        for cp in range(0x80, 0x3000):
+            c = chr(cp)
+            if not c.isalpha():
+                continue
+            forms = (c.upper(), c.lower(), c.title())
+            if any(len(f) > 1 for f in forms) or c.upper().upper() != c.upper() or c.lower().lower() != c.lower() or \
+                    c.title().title() != c.title():
+                out.append(c)
+        return out
+
+    def cases(self, tier, unit):
+        for c in self.letters():
+            yield [c]
+
+    def check(self, env, case):
+        c = case[0]
+        env.nt()
+        for s in ('a' + c + 'b', c + 'a', 'x ' + c, c):
+            for fn in ('UPPER', 'LOWER', 'PROPER'):
+                o1 = env.evo('%s(xs)' % fn, vars={'xs': s})
+                o2 = env.evo('%s(%s(xs))' % (fn, fn), vars={'xs': s})
+                if o1[0] != 'v' or not isinstance(o1[1], str):
+                    return fail('%s(xs) with xs=%r gives %r, expected text' % (fn, s, o1), 'text', o1)
+                if o2 != o1:
+                    return fail('%s is not idempotent: %s(%s(xs)) gives %r but %s(xs) gives %r with xs = %r (U+%04X inside)' % (
+                        fn, fn, fn, o2, fn, o1, s, ord(c)), o1, o2)
+        return None
+
+
 class CodeChar(Sharded):
     name = 'c15.code_char'
     rule = ('every n of the bound, as literal and (below 65536) as variable: CODE(CHAR(n)) gives n and (below '
@@ -743,7 +784,7 @@ def render_args(args):
 
 class Join(Sharded):
     name = 'c15.join'
-    rule = ('every item list of the bound over text items and blanks x every regrouping into scalar '
+    rule = ('every item list of the bound over text items, a whole number and blanks x every regrouping into scalar '
             'arguments, host lists, nested host lists and literal arrays: CONCATENATE and TEXTJOIN x 3 '
             'delimiters x ignore TRUE/FALSE (delimiter/flag as literals and as variables) against a '
             'flatten-and-join reference; non-trivial = the list contains a blank or an argument is an array')
@@ -753,7 +794,7 @@ class Join(Sharded):
     DELIMS = ('', ',', ', ')
 
     def all_cases(self, tier):
-        pool = ['a', 'b c', None, ',']
+        pool = ['a', 'b c', None, ',', 7]      # 7: an item that is a whole number joins as its digits (as under &)
         top = 3 if tier == 'quick' else 5
         for n in range(1, top + 1):
             for items in itertools.product(pool, repeat=n):
@@ -769,7 +810,7 @@ class Join(Sharded):
         coll = Coll()
         blank = any(x is None for x in items)
         for args in renderings(items):
-            comma = ',' in items
+            comma = ',' in items or 7 in items
             coll.add(('C', blank, comma), self.one(env, ['one', 'CONCATENATE', args, None, None, 'l']))
             for d in self.DELIMS:
                 for ig in (True, False):
@@ -788,14 +829,14 @@ class Join(Sharded):
         if blank or any(a[0] in ('h', 'A', 'A2') for a in args):
             env.nt()
         if fn == 'CONCATENATE':
-            exp = ''.join('' if x is None else x for x in flat)
+            exp = ''.join('' if x is None else str(x) for x in flat)
             formula = 'CONCATENATE(%s)' % ','.join(frags)
             env.note('CONCATENATE:%s' % ('blank' if blank else 'text'))
         else:
             if ignore:
-                exp = delim.join(x for x in flat if x is not None)
+                exp = delim.join(str(x) for x in flat if x is not None)
             else:
-                exp = delim.join('' if x is None else x for x in flat)
+                exp = delim.join('' if x is None else str(x) for x in flat)
             if dmode == 'v':
                 vars['dl'] = delim
                 vars['ig'] = ignore
@@ -989,4 +1030,4 @@ class TextScale(Sub):
         return out
 
 
-SUBS = [Slices(), SliceLaws(), LenConcat(), CaseTrimClean(), CodeChar(), Join(), Substitute(), TextWholeFloats(), TextSiblings(), TextScale()]
+SUBS = [Slices(), SliceLaws(), LenConcat(), CaseTrimClean(), CaseSpecial(), CodeChar(), Join(), Substitute(), TextWholeFloats(), TextSiblings(), TextScale()]
